@@ -4,7 +4,7 @@
 # Results: one line per change on stdout. Scratch data lives under /tmp/regr-* and is removed at the end.
 export GOFLAGS=-mod=mod GOPROXY=off GOSUMDB=off GOTOOLCHAIN=local
 export VERIF_DIR=/verif VERIF_HARNESS_DIR=/verif/harness
-ids="$@"; [ -z "$ids" ] && ids=$(ls /verif/seeded)
+ids="$@"; [ -z "$ids" ] && ids=$(ls -d /verif/seeded/C*-m* | xargs -n1 basename)
 wt=/tmp/regr-wt-$$; out=/tmp/regr-out-$$
 git -C /repo worktree prune; rm -rf $wt $out; mkdir -p $out
 git -C /repo worktree add -q --detach $wt HEAD || exit 2
